@@ -1,4 +1,4 @@
-//@ requires base
+//@ requires base errors
 // ---- std iterator shim: a double-ended, cloneable iterator seen as the sequence of items it has yet to yield.
 // ASSUMED[iter-std]: Iterator::{next,nth,last,count}, DoubleEndedIterator::{next_back, rev().nth(k)} and Clone behave as
 // documented in std for finite iterators such as vec::IntoIter, path::Components, str::Split: rest() is the remaining items.
@@ -45,4 +45,43 @@ impl<T> DeIter<T> {
     pub fn count(self) -> (n: usize) ensures n == self.rest().len() { unimplemented!() }
     #[verifier::external_body]
     pub fn clone(&self) -> (r: Self) ensures r.rest() == self.rest() { unimplemented!() }
+}
+
+// ---- plain list semantics of rivia's IteratorExt (spec functions shared by unit core_iter, which proves the real bodies
+// against them, and by the units that call these helpers)
+pub open spec fn min_i(a: int, b: int) -> int { if a <= b { a } else { b } }
+pub open spec fn max_i(a: int, b: int) -> int { if a >= b { a } else { b } }
+
+// drop(n): n > 0 removes the first n items, n < 0 the last |n| (all of them if fewer), n == 0 nothing
+pub open spec fn spec_drop<T>(s: Seq<T>, n: int) -> Seq<T> {
+    if n > 0 { s.skip(min_i(n, s.len() as int)) } else if n < 0 { s.take(max_i(s.len() - (-n), 0)) } else { s }
+}
+// slice(l, r): inclusive index range, negative indices count from the end, right bound beyond the end clamped,
+// nothing when the range is empty or out of bounds (property C19; stated for l >= -len)
+pub open spec fn norm_l(len: int, left: int) -> int { if left < 0 { len + left } else { left } }
+pub open spec fn norm_r(len: int, right: int) -> int { if right < 0 { len + right } else if right >= len { len - 1 } else { right } }
+pub open spec fn spec_slice<T>(s: Seq<T>, left: int, right: int) -> Seq<T> {
+    let len = s.len() as int;
+    let lo = norm_l(len, left);
+    let hi = norm_r(len, right);
+    if 0 <= lo && lo <= hi && hi < len { s.subrange(lo, hi + 1) } else { Seq::empty() }
+}
+
+
+impl<T> DeIter<T> {
+    // rivia IteratorExt::{drop, first_result, last_result, some}: contracts proved against the real bodies in unit core_iter
+    #[verifier::external_body]
+    pub fn drop(self, n: isize) -> (r: Self) ensures r.rest() == spec_drop(self.rest(), n as int) { unimplemented!() }
+    #[verifier::external_body]
+    pub fn first_result(self) -> (r: RvResult<T>)
+        ensures self.rest().len() == 0 ==> r is Err && r->Err_0.kind == ErrKind::ItemNotFound,
+                self.rest().len() > 0 ==> r is Ok && r->Ok_0 == self.rest()[0],
+    { unimplemented!() }
+    #[verifier::external_body]
+    pub fn last_result(self) -> (r: RvResult<T>)
+        ensures self.rest().len() == 0 ==> r is Err && r->Err_0.kind == ErrKind::ItemNotFound,
+                self.rest().len() > 0 ==> r is Ok && r->Ok_0 == self.rest().last(),
+    { unimplemented!() }
+    #[verifier::external_body]
+    pub fn some(self) -> (r: bool) ensures r == (self.rest().len() > 0) { unimplemented!() }
 }
